@@ -57,6 +57,7 @@ func n(thor bool, q, t int) int {
 }
 
 var mcRound = model{mod: "MC_Round", quick: map[string]string{"NMax": "120", "PMax": "3"}, thorough: map[string]string{"NMax": "1100", "PMax": "3"}}
+var mcSum = model{mod: "MC_Sum", quick: map[string]string{"NMax": "30", "PMax": "2", "GapMax": "9"}, thorough: map[string]string{"NMax": "110", "PMax": "2", "GapMax": "10"}}
 var mcBigNat = model{mod: "MC_BigNat", quick: map[string]string{"Bound": "60", "NRand": "100", "MaxLen": "24"}, thorough: map[string]string{"Bound": "300", "NRand": "1000", "MaxLen": "30"}}
 
 var commonAssumptions = []string{
@@ -71,15 +72,28 @@ var roundReq = []string{"Add:tie-up", "Add:tie-down", "Add:carry", "Sub:fits", "
 
 var checks = map[string]*check{
 	"C01": {
-		id: "C01", models: []model{mcBigNat, mcRound}, trace: "Trace_Core", batch: 4,
-		gen:  func(g *gen.G, thor bool) []gen.Program { return gen.Round(g, n(thor, 1500, 40000)) },
-		rule: "cases = Add/Sub/Mul/Quo/Set/SetPrec/Neg/Abs calls on operands built from adversarial digit patterns (ties, near-ties, all-nines carries, cancellation, exponent gaps around the precision, exact quotients by multi-word 9/0-run divisors, exponents within 60 of the int32 limits) x 6 modes x aliasing shapes x receiver histories; a case is non-trivial/distinct by its specification branch cell (operation x rounding branch x operand forms), counted by TLC in the trace specification's cov variable",
+		id: "C01", models: []model{mcBigNat, mcRound, mcSum}, trace: "Trace_Core", batch: 4,
+		gen:         func(g *gen.G, thor bool) []gen.Program { return gen.Round(g, n(thor, 1500, 40000)) },
+		rule:        "cases = Add/Sub/Mul/Quo/Set/SetPrec/Neg/Abs calls on operands built from adversarial digit patterns (ties, near-ties, all-nines carries, cancellation, exponent gaps around the precision, exact quotients by multi-word 9/0-run divisors, exponents within 60 of the int32 limits) x 6 modes x aliasing shapes x receiver histories; a case is non-trivial/distinct by its specification branch cell (operation x rounding branch x operand forms), counted by TLC in the trace specification's cov variable",
 		assumptions: commonAssumptions, req: roundReq,
+	},
+	"C03": {
+		id: "C03", models: []model{mcSum}, trace: "Trace_Core", batch: 4,
+		gen:         func(g *gen.G, thor bool) []gen.Program { return gen.FMA(g, n(thor, 1500, 40000)) },
+		rule:        "FMA calls: random triples, targeted exact sums x*y+u with delicate digits after the precision, massive cancellation (u = -(x*y) +- 1 ulp), u far above/below the product, products whose exponent leaves int32 while the sum stays inside, zero/infinite operands; x 6 modes x aliasing partitions of (z,x,y,u) x receiver histories; distinct by specification branch cell; the trace spec also classifies each finite case as same-as / differs-from Mul-then-Add",
+		assumptions: commonAssumptions,
+		req:         []string{"FMA:differs-from-mul-add", "FMA:same-as-mul-add", "FMA:tie-up", "FMA:tie-down", "FMA:fits", "FMA:special"},
+	},
+	"C04": {
+		id: "C04", models: []model{}, trace: "Trace_Core", batch: 4,
+		gen:         func(g *gen.G, thor bool) []gen.Program { return gen.Special(g, thor) },
+		rule:        "complete enumeration of operation x operand classes {-Inf,-finite,-0,+0,+finite,+Inf}^k x six modes (x aliasing shapes, receiver precision 0 / > 0, finite magnitudes ordinary / near MinExp / near MaxExp); a case is distinct by operation x class tuple (cov cell)",
+		assumptions: commonAssumptions,
 	},
 	"C02": {
 		id: "C02", models: []model{mcRound}, trace: "Trace_Core", batch: 4,
-		gen:  func(g *gen.G, thor bool) []gen.Program { return gen.Round(g, n(thor, 1500, 40000)) },
-		rule: "same programs as C01 with a different seed stream; the accuracy field is its own mismatch class (C02/acc) so that a C02 alarm is never a side effect of a value error",
+		gen:         func(g *gen.G, thor bool) []gen.Program { return gen.Round(g, n(thor, 1500, 40000)) },
+		rule:        "same programs as C01 with a different seed stream; the accuracy field is its own mismatch class (C02/acc) so that a C02 alarm is never a side effect of a value error",
 		assumptions: commonAssumptions, req: roundReq,
 	},
 }
